@@ -36,6 +36,50 @@ Proof.
   apply spec_field_types_holds.
 Qed.
 
+(* ---- members: events, command methods, summaries ------------------------------------------------------ *)
+Lemma Forall2_as_declared : forall us, Forall2 field_as_declared us (map of_ufield us).
+Proof. intros us. apply Forall2_map_r. intros u _. apply of_ufield_as_declared. Qed.
+
+Lemma in_expand_command : forall e fl c x, In c (e_commands e) -> In x (command_components e c) -> In x (expand_with e fl).
+Proof.
+  intros e fl c x Hc Hx. unfold expand_with. apply in_or_app. right. apply in_or_app. right.
+  apply in_or_app. left. apply in_flat_map. exists c. auto.
+Qed.
+
+Theorem spec_member_field_types_holds : forall e fl, spec_member_field_types e (expand_with e fl).
+Proof.
+  intros e fl. split; [|split].
+  - exists (event_type_msg e). unfold has_msg. split; [apply in_expand_head; cbn; auto 10|].
+    cbn [event_type_msg m_name m_nested]. unfold event_type_name. rewrite cn_event_type. split; [reflexivity|].
+    apply (Forall2_map_r _ (fun ev => (ev_name ev, map of_ufield (ev_fields ev)))).
+    intros ev _. cbn [fst snd]. split; [reflexivity|apply Forall2_as_declared].
+  - intros c md Hc Hmd.
+    assert (Hin : forall x, In x (fst (method_components
+                     (match c_base c with Some b => [47] ++ base_url e ++ [47] ++ b | None => [47] ++ base_url e ++ bs "/c" end)
+                     (md_name md) (md_verb md) (md_path md) (map of_ufield (md_request md))
+                     (option_map (map of_ufield) (md_response md)) 0)) -> In x (expand_with e fl)).
+    { intros x Hx. apply (in_expand_command e fl c x Hc). unfold command_components, service_components.
+      apply in_or_app. left. apply in_flat_map. eexists. split; [apply in_map; exact Hmd|exact Hx]. }
+    split.
+    + eexists. split; [apply Hin; cbn [method_components fst]; left; reflexivity|].
+      cbn [m_name m_fields]. split; [reflexivity|apply Forall2_as_declared].
+    + intros r Hr. eexists. split.
+      * apply Hin. rewrite Hr. cbn [method_components fst option_map]. right. left. reflexivity.
+      * cbn [m_name m_fields]. split; [reflexivity|apply Forall2_as_declared].
+  - intros s Hs. eexists. eexists. split.
+    + apply (in_expand_summary e fl s _ Hs). unfold summary_components, topic_components. left. reflexivity.
+    + cbn [m_name m_fields tl hd_error].
+      assert (E : summary_topic_name e s = sp_summary_name e s).
+      { unfold summary_topic_name, sp_summary_name, camel_name, sp_camel. destruct (s_name s); reflexivity. }
+      rewrite E. split; [reflexivity|]. split; [apply Forall2_as_declared|]. split; reflexivity.
+Qed.
+
+Theorem member_field_types_as_declared : forall e cs, compile e = Ok cs -> spec_member_field_types e cs.
+Proof.
+  intros e cs H. destruct (compile_inv e cs H) as [_ [_ [Hl [fl [_ [-> _]]]]]].
+  apply spec_member_field_types_holds.
+Qed.
+
 (* non-vacuity: a key, an array of integers, a map of object references, an inline object *)
 Definition field_types_sample : entity :=
   mkE (bs "foo.v1") (bs "Foo") []
